@@ -191,6 +191,328 @@ func c13Foreign(r *zzverif.Rng, l string) string {
 	return sb.String()
 }
 
+// ---------------------------------------------------------------------------------------------
+// histories: a sequence of operations on ONE DiskCache interleaved with foreign writers of the
+// shared manifests directory.
+
+type c13HOp struct{ code, arg string }
+
+// c13Walk lists manifests/a/b/c/d below dir WITHOUT going through the cache (os.ReadDir, which sorts
+// each level by entry name: the order fs.Glob produces).
+func c13Walk(dir string) []string {
+	var out []string
+	var rec func(rel string, depth int)
+	rec = func(rel string, depth int) {
+		ents, err := os.ReadDir(filepath.Join(dir, rel))
+		if err != nil {
+			return
+		}
+		for _, e := range ents {
+			r := rel + "/" + e.Name()
+			if depth == 4 {
+				out = append(out, r)
+			} else if e.IsDir() {
+				rec(r, depth+1)
+			}
+		}
+	}
+	rec("manifests", 1)
+	return out
+}
+
+func c13HistLine(init []string, ops []c13HOp) string {
+	var sb strings.Builder
+	fmt.Fprintf(&sb, "hist %d", len(init))
+	for _, l := range init {
+		sb.WriteString(" " + zzverif.Hex([]byte(l)))
+	}
+	fmt.Fprintf(&sb, " %d", len(ops))
+	for _, o := range ops {
+		sb.WriteString(" " + o.code + " " + zzverif.Hex([]byte(o.arg)))
+	}
+	return sb.String()
+}
+
+// c13Spellings: the name, all-lower and all-upper, changing ASCII letters only (strings.ToUpper would turn a
+// LONG S into S, which is a different name, not another spelling).
+func c13Spellings(s string) []string {
+	lo, up := []byte(s), []byte(s)
+	for i, c := range []byte(s) {
+		if c >= 'A' && c <= 'Z' {
+			lo[i] = c + 32
+		} else if c >= 'a' && c <= 'z' {
+			up[i] = c - 32
+		}
+	}
+	return []string{s, string(lo), string(up)}
+}
+
+// c13History runs one history on a fresh cache directory and records L1 (the path every cache call resolves
+// to, whether that file existed, and the final listing) and the L2 history clauses.
+func c13History(t *testing.T, out *zzverif.Out, init []string, ops []c13HOp) {
+	dir := t.TempDir()
+	c, err := Open(dir)
+	if err != nil {
+		t.Fatal(err)
+	}
+	op := c13HistLine(init, ops)
+	foreign := map[string]bool{}
+	write := func(rel, content string) {
+		p := filepath.Join(dir, rel)
+		if err := os.MkdirAll(filepath.Dir(p), 0o755); err == nil {
+			if os.WriteFile(p, []byte(content), 0o644) == nil {
+				foreign[rel] = true
+			}
+		}
+	}
+	for i, l := range init {
+		write(l, fmt.Sprintf("init-%d", i))
+	}
+	exists := func(p string) bool { _, err := os.Stat(p); return err == nil }
+	var res []string
+	var pool []string
+	// born: for every manifest file now on disk, at which step it appeared and whether a foreign writer made it
+	type birth struct {
+		step    int
+		foreign bool
+	}
+	born := map[string]birth{}
+	step := -1
+	track := func(byForeign bool) []string {
+		listing := c13Walk(dir)
+		now := map[string]bool{}
+		for _, l := range listing {
+			now[l] = true
+			if _, ok := born[l]; !ok {
+				born[l] = birth{step, byForeign}
+			}
+		}
+		for l := range born {
+			if !now[l] {
+				delete(born, l)
+			}
+		}
+		return listing
+	}
+	track(true)
+	record := func(p string, err error, existed bool) {
+		if err != nil {
+			res = append(res, "!-")
+			return
+		}
+		rel := strings.TrimPrefix(p, dir+"/")
+		if existed {
+			res = append(res, zzverif.Hex([]byte(rel))+"+")
+		} else {
+			res = append(res, zzverif.Hex([]byte(rel))+"-")
+		}
+	}
+	for i, o := range ops {
+		out.Count("hist_op_" + o.code)
+		step = i
+		switch o.code {
+		case "R":
+			p, err := c.manifestPath(o.arg)
+			existed := err == nil && exists(p)
+			record(p, err, existed)
+			_, rerr := c.Resolve(o.arg)
+			if err == nil && (rerr == nil) != existed {
+				out.L2("hist-resolve-vs-file", op, fmt.Sprintf("step %d: file exists=%v but Resolve: %v", i, existed, rerr))
+			}
+			pool = append(pool, o.arg)
+		case "L":
+			p, err := c.manifestPath(o.arg)
+			existed := err == nil && exists(p)
+			record(p, err, existed)
+			content := fmt.Sprintf("manifest-%d", i)
+			d := DigestFromBytes(content)
+			if perr := PutBytes(c, d, content); perr != nil {
+				t.Fatal(perr)
+			}
+			lerr := c.Link(o.arg, d)
+			if (err == nil) != (lerr == nil) {
+				out.L2("hist-link-vs-path", op, fmt.Sprintf("step %d: manifestPath err=%v Link err=%v", i, err, lerr))
+			}
+			if lerr == nil {
+				if got, rerr := c.Resolve(o.arg); rerr != nil || got != d {
+					out.L2("hist-link-not-visible", op, fmt.Sprintf("step %d: Resolve after Link: %v", i, rerr))
+				}
+			}
+			pool = append(pool, o.arg)
+		case "U":
+			p, err := c.manifestPath(o.arg)
+			existed := err == nil && exists(p)
+			record(p, err, existed)
+			ok, uerr := c.Unlink(o.arg)
+			if err == nil && (uerr != nil || ok != existed) {
+				out.L2("hist-unlink-vs-file", op, fmt.Sprintf("step %d: existed=%v Unlink=%v,%v", i, existed, ok, uerr))
+			}
+			if err == nil && ok {
+				delete(foreign, strings.TrimPrefix(p, dir+"/"))
+			}
+			pool = append(pool, o.arg)
+		case "W":
+			write(o.arg, fmt.Sprintf("foreign-%d", i))
+			track(true)
+			continue
+		case "X":
+			if os.Remove(filepath.Join(dir, o.arg)) == nil {
+				delete(foreign, o.arg)
+			}
+			track(true)
+			continue
+		}
+		// L2 after every cache call, on the real directory (independent walk):
+		listing := track(false)
+		// (a) no two manifests differ only by case unless a foreign writer created the twin, i.e. the
+		//     LATER of the two files must not have been created by the cache
+		for a := 0; a < len(listing); a++ {
+			for b := a + 1; b < len(listing); b++ {
+				if !strings.EqualFold(listing[a], listing[b]) {
+					continue
+				}
+				later := born[listing[a]]
+				if bb := born[listing[b]]; bb.step > later.step {
+					later = bb
+				}
+				out.Count("hist_twins_seen")
+				if !later.foreign {
+					out.L2("hist-case-twin-created", op, fmt.Sprintf("step %d: the cache created a case twin: %q and %q", i, listing[a], listing[b]))
+				}
+			}
+		}
+		// (b) every spelling of every name used so far — the three generic ones AND every spelling that
+		//     exists on disk — resolves to the same file (or none does)
+		for _, nm := range pool {
+			np, nerr := nameToPath(nm)
+			sps := c13Spellings(nm)
+			if nerr == nil {
+				for _, l := range listing {
+					if strings.EqualFold(l, "manifests/"+np) {
+						if q := strings.Split(strings.TrimPrefix(l, "manifests/"), "/"); len(q) == 4 {
+							sps = append(sps, q[0]+"/"+q[1]+"/"+q[2]+":"+q[3])
+						}
+					}
+				}
+			}
+			var first string
+			for k, sp := range sps {
+				if _, err := nameToPath(sp); (err == nil) != (nerr == nil) {
+					continue // an on-disk foreign spelling that is not itself a valid name (KELVIN SIGN …)
+				}
+				d, rerr := c.Resolve(sp)
+				obs := "err"
+				if rerr == nil {
+					obs = d.String()
+				} else if errors.Is(rerr, errInvalidName) {
+					obs = "invalid"
+				}
+				if k == 0 {
+					first = obs
+				} else if obs != first {
+					out.L2("hist-spellings-disagree", op, fmt.Sprintf("step %d: %q -> %s but %q -> %s", i, nm, first, sp, obs))
+				}
+			}
+			out.Count("hist_spelling_checks")
+		}
+	}
+	listing := c13Walk(dir)
+	hl := make([]string, len(listing))
+	for i, l := range listing {
+		hl[i] = zzverif.Hex([]byte(l))
+	}
+	out.Case(op, strings.Join(res, ",")+" disk="+strings.Join(hl, ","))
+	out.Count("cases")
+	out.Count("histories")
+}
+
+// c13GenHistory draws a history over a small pool of fully qualified names in random case spellings.
+func c13GenHistory(r *zzverif.Rng) (init []string, ops []c13HOp) {
+	letters := "kKsSaAbBxX"
+	part := func() string {
+		n := r.Range(1, 3)
+		b := make([]byte, n)
+		for i := range b {
+			b[i] = letters[r.Intn(len(letters))]
+		}
+		if r.Chance(1, 6) {
+			b = append(b, zzverif.Pick(r, []byte{'1', '-', '_', '.'}))
+			b = append(b, 'z')
+		}
+		return string(b)
+	}
+	var base []string
+	for k := r.Range(1, 3); k > 0; k-- {
+		base = append(base, part()+"/"+part()+"/"+part()+":"+part())
+	}
+	if len(base) > 1 && r.Chance(1, 3) { // same host/namespace, so directories are shared
+		a := strings.SplitN(base[0], "/", 3)
+		base[1] = a[0] + "/" + a[1] + "/" + part() + ":" + part()
+	}
+	rel := func(nm string) string {
+		np, err := nameToPath(nm)
+		if err != nil {
+			return "manifests/x/x/x/x"
+		}
+		return "manifests/" + np
+	}
+	name := func() string {
+		nm := c13Variant(r, zzverif.Pick(r, base))
+		if r.Chance(1, 12) {
+			nm = zzverif.C13Mutate(r, nm)
+		}
+		return nm
+	}
+	for k := r.Intn(3); k > 0; k-- {
+		init = append(init, rel(c13Variant(r, zzverif.Pick(r, base))))
+	}
+	n := r.Range(3, 12)
+	for i := 0; i < n; i++ {
+		switch r.Intn(20) {
+		case 0, 1, 2, 3, 4:
+			ops = append(ops, c13HOp{"R", name()})
+		case 5, 6, 7, 8, 9:
+			ops = append(ops, c13HOp{"L", name()})
+		case 10, 11, 12:
+			ops = append(ops, c13HOp{"U", name()})
+		case 13, 14, 15, 16, 17:
+			l := rel(c13Variant(r, zzverif.Pick(r, base)))
+			if r.Chance(1, 10) {
+				l = c13Foreign(r, l[len("manifests/"):])
+				l = "manifests/" + l
+			}
+			ops = append(ops, c13HOp{"W", l})
+		default:
+			ops = append(ops, c13HOp{"X", rel(c13Variant(r, zzverif.Pick(r, base)))})
+		}
+	}
+	return init, ops
+}
+
+func c13ParseHistory(f []string) (init []string, ops []c13HOp, ok bool) {
+	// f = ["hist", n, link*, k, {code arg}*]
+	var n, k int
+	if len(f) < 3 {
+		return nil, nil, false
+	}
+	fmt.Sscan(f[1], &n)
+	if len(f) < 3+n {
+		return nil, nil, false
+	}
+	for _, l := range f[2 : 2+n] {
+		init = append(init, string(zzverif.Unhex(l)))
+	}
+	fmt.Sscan(f[2+n], &k)
+	rest := f[3+n:]
+	if len(rest) != 2*k {
+		return nil, nil, false
+	}
+	for i := 0; i < k; i++ {
+		ops = append(ops, c13HOp{rest[2*i], string(zzverif.Unhex(rest[2*i+1]))})
+	}
+	return init, ops, true
+}
+
 // c13Variant returns s with the case of every letter chosen at random.
 func c13Variant(r *zzverif.Rng, s string) string {
 	b := []byte(s)
@@ -262,6 +584,10 @@ func TestVerifC13(t *testing.T) {
 			c13DigestCase(out, empty.c, string(zzverif.Unhex(f[1])))
 		case len(f) == 2 && f[0] == "n2p":
 			c13ManifestCase(out, empty, string(zzverif.Unhex(f[1])))
+		case len(f) >= 3 && f[0] == "hist":
+			if init, ops, ok := c13ParseHistory(f); ok {
+				c13History(t, out, init, ops)
+			}
 		case len(f) == 2 && f[0] == "snd":
 			c13ResolveCase(out, empty, string(zzverif.Unhex(f[1])))
 		case len(f) == 3 && f[0] == "fold":
@@ -279,6 +605,23 @@ func TestVerifC13(t *testing.T) {
 			c13ManifestCase(out, c13NewCache(t, root.Fork(), nil), string(zzverif.Unhex(f[len(f)-1])))
 		}
 		return
+	}
+	// regression corpus (histories)
+	if b, err := os.ReadFile(os.Getenv("VERIF_CORPUS")); err == nil {
+		for _, l := range strings.Split(string(b), "\n") {
+			if f := strings.Fields(l); len(f) >= 3 && f[0] == "hist" {
+				if init, ops, ok := c13ParseHistory(f); ok {
+					c13History(t, out, init, ops)
+					out.Count("corpus")
+				}
+			}
+		}
+	}
+	// histories on one DiskCache with foreign writers
+	hroot := zzverif.NewRng(zzverif.Seed() + 2500)
+	for i := zzverif.EnvInt("VERIF_HIST", 300); i > 0; i-- {
+		init, ops := c13GenHistory(hroot.Fork())
+		c13History(t, out, init, ops)
 	}
 	// digests
 	zzverif.C13Exhaustive(zzverif.C13Alphabet, zzverif.EnvInt("VERIF_EXH", 3), func(s string) {
